@@ -23,9 +23,13 @@ RECURSIVE SubS(_, _, _, _)
 SubS(a, i, b, j) == IF i > Len(a) THEN TRUE ELSE IF j > Len(b) THEN FALSE
                     ELSE IF a[i] = b[j] THEN SubS(a, i + 1, b, j + 1) ELSE SubS(a, i, b, j + 1)
 
+\* modes that add no call: the marker integer, and a python object built on the stack and discarded (insert_python_obj + POP)
+NoCallModes == {"magic_end", "magic_idx", "obj_idx"}
+\* modes judged on the real loads only (no transcription in Inject.tla)
+RealOnlyModes == {"num_first_keep", "num_append_pop", "obj_idx"}
 RealWhy(R, run) ==          \* run = [name, ok, calls, res];  R.bcalls / R.bres from the base, R.inj / R.injres digests
   IF ~run.ok THEN "rewritten pickle fails to load with " \o run.name
-  ELSE IF R.mode \notin {"magic_end", "magic_idx"} /\ CountS(run.calls, R.inj) # 1 THEN "injected call ran " \o ToString(CountS(run.calls, R.inj)) \o " times with " \o run.name
+  ELSE IF R.mode \notin NoCallModes /\ CountS(run.calls, R.inj) # 1 THEN "injected call ran " \o ToString(CountS(run.calls, R.inj)) \o " times with " \o run.name
   ELSE IF ~SubS(R.bcalls, 1, run.calls, 1) THEN "base effects lost or reordered with " \o run.name
   ELSE IF Len(run.calls) # Len(R.bcalls) + R.added THEN "unexpected extra effects with " \o run.name
   ELSE IF R.keeps /\ run.res # R.bres THEN "result differs from the original object with " \o run.name
@@ -40,16 +44,16 @@ Judge ==
       \* callee variants ("std_" prefix: the same helpers told to call a harmless standard-library callable that is on no
       \* deny list) are judged on the verdict clause only - the property says the rewritten pickle is NEVER rated LIKELY_SAFE
       std == R.callee # "sink"
-      specWhy == IF std \/ R.refused \/ Run(R.base).st # "stop" \/ R.mode \in {"num_first_keep", "num_append_pop"} THEN "ok"   \* (the numeric-argument variants are judged on the real loads only)          \* base outside the typed domain of the VM spec: no spec-level verdict
+      specWhy == IF std \/ R.refused \/ Run(R.base).st # "stop" \/ R.mode \in RealOnlyModes THEN "ok"   \* (the numeric-argument variants are judged on the real loads only)          \* base outside the typed domain of the VM spec: no spec-level verdict
                  ELSE IF R.mode \in FnModes THEN FnWhy(R.base, R.new, R.mode) ELSE InjWhy(R.base, R.new, R.mode)
       fb == IF std \/ R.refused \/ ~R.base_loads THEN 0 ELSE FirstBadRun(R)
-      drift == IF std \/ R.refused \/ R.mode \in {"num_first_keep", "num_append_pop"} THEN FALSE
+      drift == IF std \/ R.refused \/ R.mode \in RealOnlyModes THEN FALSE
                ELSE IF R.mode \in FnModes THEN R.new # RewriteFn(R.base, R.mode, R.fnk) ELSE R.new # Rewrite(R.base, R.mode)
   IN
   /\ ~done /\ done' = TRUE /\ UNCHANGED tid
   /\ verdict' = [spec |-> specWhy,
                  real |-> IF fb = 0 THEN "ok" ELSE RealWhy(R, R.runs[fb]),
-                 sev  |-> IF R.refused \/ R.mode \in {"magic_end", "magic_idx"} \/ R.sev # 0 THEN "ok" ELSE "rated LIKELY_SAFE",
+                 sev  |-> IF R.refused \/ R.mode \in NoCallModes \/ R.sev # 0 THEN "ok" ELSE "rated LIKELY_SAFE",
                  drift |-> drift]
 Next == Judge
 Spec == Init /\ [][Next]_vars
